@@ -103,9 +103,10 @@ def run_case(case, ctx):
             return Tt[tuple(J[:, kcol] for kcol in range(d))]
         kw = {'eps': eps}
         if start is not None:
-            y = ctx.lib('dmrg_cross(start)', lambda s: torchtt.interpolate.dmrg_cross(fun, list(N), x_start=s, **kw), start)
+            invoke = lambda: ctx.lib('dmrg_cross(start)', lambda s: torchtt.interpolate.dmrg_cross(fun, list(N), x_start=s, **kw), start)
         else:
-            y = ctx.lib('dmrg_cross', lambda: torchtt.interpolate.dmrg_cross(fun, list(N), **kw))
+            invoke = lambda: ctx.lib('dmrg_cross', lambda: torchtt.interpolate.dmrg_cross(fun, list(N), **kw))
+        y = invoke()
     elif routine == 'interp_uni':
         # argument tensor = the flat index of every entry (int-valued, TT rank 2); f = table lookup
         from torchtt import _extras
@@ -124,9 +125,10 @@ def run_case(case, ctx):
             return Tflat[r.clamp(0, n - 1).long()]
         kw = {'eps': eps}
         if start is not None:
-            y = ctx.lib('function_interpolate(start)', lambda a, s: torchtt.interpolate.function_interpolate(fun, a, start_tens=s, **kw), xarg, start)
+            invoke = lambda: ctx.lib('function_interpolate(start)', lambda a, s: torchtt.interpolate.function_interpolate(fun, a, start_tens=s, **kw), xarg, start)
         else:
-            y = ctx.lib('function_interpolate', lambda a: torchtt.interpolate.function_interpolate(fun, a, **kw), xarg)
+            invoke = lambda: ctx.lib('function_interpolate', lambda a: torchtt.interpolate.function_interpolate(fun, a, **kw), xarg)
+        y = invoke()
     elif routine == 'interp_coupled':
         # argument tensors that vary along TWO modes each: x_j = X_j + n_j * X_{j+1 mod d} (int-valued, TT rank 2).  The tuple handed to f
         # identifies the multi-index redundantly, so "the row is an actual tuple of entries" is an exact consistency test.
@@ -162,9 +164,10 @@ def run_case(case, ctx):
             return Tt[tuple(idx)]
         kw = {'eps': eps}
         if start is not None:
-            y = ctx.lib('function_interpolate(list,start)', lambda s, *a: torchtt.interpolate.function_interpolate(fun, list(a), start_tens=s, **kw), start, *xs)
+            invoke = lambda: ctx.lib('function_interpolate(list,start)', lambda s, *a: torchtt.interpolate.function_interpolate(fun, list(a), start_tens=s, **kw), start, *xs)
         else:
-            y = ctx.lib('function_interpolate(list)', lambda *a: torchtt.interpolate.function_interpolate(fun, list(a), **kw), *xs)
+            invoke = lambda: ctx.lib('function_interpolate(list)', lambda *a: torchtt.interpolate.function_interpolate(fun, list(a), **kw), *xs)
+        y = invoke()
     else:
         xs = torchtt.meshgrid([torch.arange(m, dtype=dt) for m in N])
 
@@ -188,9 +191,10 @@ def run_case(case, ctx):
             return Tt[tuple(J[:, kcol].clamp(0, N[kcol] - 1) for kcol in range(d))]
         kw = {'eps': eps}
         if start is not None:
-            y = ctx.lib('function_interpolate(list,start)', lambda s, *a: torchtt.interpolate.function_interpolate(fun, list(a), start_tens=s, **kw), start, *xs)
+            invoke = lambda: ctx.lib('function_interpolate(list,start)', lambda s, *a: torchtt.interpolate.function_interpolate(fun, list(a), start_tens=s, **kw), start, *xs)
         else:
-            y = ctx.lib('function_interpolate(list)', lambda *a: torchtt.interpolate.function_interpolate(fun, list(a), **kw), *xs)
+            invoke = lambda: ctx.lib('function_interpolate(list)', lambda *a: torchtt.interpolate.function_interpolate(fun, list(a), **kw), *xs)
+        y = invoke()
     ctx.count('callback_invocations', cb['calls'])
     ctx.count('callback_indices_checked', cb['rows'])
     if cb['bad'] is not None:
@@ -212,6 +216,22 @@ def run_case(case, ctx):
     ratio = err / (eps * nt)
     ctx.metric('err_over_eps_norm/' + routine, ratio)
     if not err <= C_EPS * eps * nt + 1e3 * 2.3e-16 * nt:
-        ctx.viol(key + '/clause=error>10eps', '%s: ||D(y)-T||/||T|| = %.3e = %.3g * eps; result ranks %s; callback invocations %d' % (what, err / nt, ratio, [int(r) for r in y.R], cb['calls']))
+        # Mechanism classification by further executions of the SAME call under other internal seeds: a systematic break fails (nearly) always,
+        # the cross method's rare seed-dependent false convergence (local stopping rule satisfied on a wrong iterate) does not.
+        fails, runs = 0, 0
+        for j in range(1, 7):
+            torch.manual_seed((case['seed'] + 7919 * j) % (2 ** 31))
+            yj = invoke()
+            runs += 1
+            if isinstance(yj, Raised) or not isinstance(yj, torchtt.TT) or [int(m) for m in yj.N] != list(N):
+                fails += 1
+                continue
+            if not dn.fro(dn.D(yj) - Tt) <= C_EPS * eps * nt + 1e3 * 2.3e-16 * nt:
+                fails += 1
+        ctx.count('reseeded_executions', runs)
+        clause = 'error>10eps' if fails >= 3 else 'error>10eps/seed-dependent-false-convergence'
+        ctx.viol(('%s/clause=%s' % (routine, clause)) if fails < 3 else (key + '/clause=' + clause),
+                 '%s: ||D(y)-T||/||T|| = %.3e = %.3g * eps; result ranks %s; callback invocations %d; the same call under 6 other internal seeds failed %d times' % (
+                     what, err / nt, ratio, [int(r) for r in y.R], cb['calls'], fails))
     if cb['calls'] > 0 and nt > 0:
         ctx.nontrivial((routine, case['target'], tuple(N), tuple(case['R']), int(math.log10(eps)), case['start'], case.get('tscale', 1.0), case['sidx']))
